@@ -24,8 +24,10 @@ def main():
                      tables='_filter_tables_split 1x2 rows of 1..3 tokens, arbitrary global order, thresholds grid')
     ck.outside += ['edit-distance strings longer than 3 characters', 'rows beyond the bounds',
                    'structural sufficiency of K for set sizes above the E2 bound']
-    e1_stage.run_contract(ck, ck.tier, max_obligations=90 if quick else None,
-                          always=('pl', 'mono') if quick else ('pl',))
+    # quick tier: the sample emphasises the size-window and required-overlap clauses (C01's quick
+    # sample takes every prefix-length clause); the thorough tier proves all of K
+    e1_stage.run_contract(ck, ck.tier, max_obligations=130 if quick else None,
+                          always=('mono',), kinds=('lb', 'ub', 'alpha', 'mono') if quick else None)
     for flt in ('SizeFilter', 'PrefixFilter', 'PositionFilter', 'SuffixFilter'):
         for measure in ('JACCARD', 'COSINE', 'DICE'):
             ck.e2('pair-%s-%s' % (flt, measure), h_pair.make(dict(
@@ -49,6 +51,10 @@ def main():
         ck.e2('tables-%s-OVERLAP' % flt, h_core.make(dict(
             entry='filter_split', filter=flt, measure='OVERLAP', nl=1, nr=2, k=3, thresholds=[1, 2],
             props=P)), stop_on_violation=False)
+    for flt in ('SizeFilter', 'PrefixFilter', 'PositionFilter'):
+        ck.e2('tables-%s-1x1-k5' % flt, h_core.make(dict(
+            entry='filter_split', filter=flt, measure='JACCARD', nl=1, nr=1, k=5, thresholds=[0.3, 0.5, 0.8],
+            props=P)), bounds=dict(rows='1x1', k=5))
     ck.e2('tables-OverlapFilter', h_core.make(dict(entry='filter_split', filter='OverlapFilter',
                                                    measure='OVERLAP', nl=1, nr=2, k=3, thresholds=[1, 2],
                                                    comp_ops=['>='], props=P)))
